@@ -41,6 +41,15 @@ pub fn run(config: Config) -> ::anyhow::Result<()> {
         ));
     }
 
+    let max_peers_limit = workers::socket::max_peers_fitting_response_buffer(&config);
+
+    if config.protocol.max_peers > max_peers_limit {
+        return Result::Err(anyhow::anyhow!(
+            "protocol.max_peers can not be set higher than {}, since responses would not fit in the response buffer",
+            max_peers_limit
+        ));
+    }
+
     let state = State::default();
 
     update_access_list(&config.access_list, &state.access_list)?;
